@@ -23,6 +23,13 @@ class PluginFault(Exception):
     """The injected plugin failure."""
 
 
+class PluginCancelled(BaseException):
+    """The injected plugin failure in the shape of asyncio.CancelledError: not an Exception subclass."""
+
+
+FAULT_CLASS = [PluginFault]
+
+
 def reset():
     with _lock:
         del EVENTS[:]
@@ -31,6 +38,7 @@ def reset():
         INSTANCES.clear()
         del KEPT_LABELS[:]
         BARE_FAULTS[0] = False
+        FAULT_CLASS[0] = PluginFault
         HOOK[0] = None
 
 
@@ -47,8 +55,8 @@ def _rec(name, callback, payload=None):
         hook(name, callback, payload)
     if plan is not None and (plan == '*' or idx in plan):
         if idx % 3 == 2 or BARE_FAULTS[0]:
-            raise PluginFault()       # failures do not always come with a message
-        raise PluginFault('%s.%s call %d' % (name, callback, idx))
+            raise FAULT_CLASS[0]()       # failures do not always come with a message
+        raise FAULT_CLASS[0]('%s.%s call %d' % (name, callback, idx))
     return idx
 
 
@@ -97,7 +105,7 @@ class _Rec(Plugin):
 
     def __init__(self, config=None):
         if self.FAIL_CTOR:
-            raise PluginFault('%s constructor' % type(self).__name__)
+            raise FAULT_CLASS[0]('%s constructor' % type(self).__name__)
         super().__init__(self.NAME or type(self).__name__, config)
         self.class_name = type(self).__name__
         with _lock:
